@@ -487,3 +487,43 @@ class ChunkRelativeFrames(Case):
 CASES = [ScanWindowsSingle(3), ScanWindowsSingle(1), PrepSingleExon(False), PrepSingleExon(True), PrepTwoExons(),
          PrepExons(3), ChunkRelativeFrames(1), ChunkRelativeFrames(2), ChunkRelativeFrames(3),
          ConstructFrames(1), ConstructFrames(2), ConstructFrames(3), CodonsSingleExonChunk()]
+
+
+class InFrameStop(Case):
+    """CDSInterval.has_in_frame_stop / translate on the complete domain of 1..3-codon coding sequences over
+    {ATG, AAA, TAA, TGA, TAG} (single exon, both strands): the protein is the codon-wise translation, and an in-frame
+    stop is reported iff some codon BEFORE the last one is a stop - a run of stops at the end still counts."""
+    props = ("C05", "C17")
+    name = "CDSInterval.translate / has_in_frame_stop[all 1..3-codon sequences over 5 codons, both strands]"
+    func = CDS + ".has_in_frame_stop"
+    module = "gene.cds"
+    call = "(lambda c: (str(c.translate()), c.has_in_frame_stop, c.num_codons))(cds)"
+    ensures = {
+        "protein-is-codon-wise-translation": lambda i, r: r[0] == "".join(_AA[c] for c in i.codons),
+        "in-frame-stop-iff-a-stop-before-the-last-codon": lambda i, r: r[1] == any(_AA[c] == "*" for c in i.codons[:-1]),
+        "codon-count": lambda i, r: r[2] == len(i.codons),
+    }
+
+    def inputs(self, S):
+        codons = list(S.const("codons"))
+        plus = S.const("plus")
+        text = "".join(codons)
+        if not plus:
+            text = "".join({"A": "T", "C": "G", "G": "C", "T": "A"}[ch] for ch in reversed(text))
+        genome = "CC" + text + "GG"
+        f = S.fn("io.parser.seq_to_parent")
+        par = f(genome, seq_id="chr1") if S.mode == "native" else S.e.call(f, [genome], {"seq_id": "chr1"})
+        cds = S.new(CDS, [2], [2 + len(text)], S.enum_const(STRAND, "PLUS" if plus else "MINUS"),
+                    [S.enum_const(FRAME, "ZERO")], parent_or_seq_chunk_parent=par)
+        return NS(cds=cds, codons=codons)
+
+    def ground(self):
+        import itertools
+        for n in (1, 2, 3):
+            for cs in itertools.product(("ATG", "AAA", "TAA", "TGA", "TAG"), repeat=n):
+                for plus in (True, False):
+                    yield dict(codons=list(cs), plus=plus)
+
+
+_AA = {"ATG": "M", "AAA": "K", "TAA": "*", "TGA": "*", "TAG": "*"}
+CASES.append(InFrameStop())
